@@ -9,7 +9,8 @@ cd "$(dirname "$0")/.." || exit 2
 V=$(pwd); OUT=${OUT:-$V/seeded/BENIGN.tsv}; : > $OUT
 NAMES=${@:-$(ls seeded/benign)}
 for N in $NAMES; do D=seeded/benign/$N
-  PROPS=${PROPS_OVERRIDE:-$(python3 - "$V" "$D/patch.diff" <<'EOF'
+  if [ -f $D/props ]; then PO=$(cat $D/props); else PO=$PROPS_OVERRIDE; fi
+  PROPS=${PO:-$(python3 - "$V" "$D/patch.diff" <<'EOF'
 import json,re,sys
 V,patch=sys.argv[1:3]
 files=set(re.findall(r'^\+\+\+ b/(\S+)',open(patch).read(),re.M))
